@@ -15,7 +15,7 @@ RULE = ("a case is an argparse PROGRAM (constructor keywords prefix_chars in {-,
         "argument_default / exit_on_error, then an ordered declaration list over: positionals with nargs None,?,*,+,2; "
         "options with store / store_true / store_false / store_const / count / append / append_const / extend, type=int, "
         "choices, defaults, required; argument groups; mutually exclusive groups (required or not); set_defaults on "
-        "declared and undeclared dests; parents= (one or two stdlib or simple_parsing parents with their own argument groups, required / optional mutually exclusive groups (also nested in a group), set_defaults before and after the add_argument of the same dest or for a dest declared by the other parent, options that are proper prefixes of dataclass options)), a dataclass FOREST registered with "
+        "declared and undeclared dests; parents= (one or two stdlib or simple_parsing parents with their own argument groups, required / optional mutually exclusive groups (also nested in a group), up to three parents sharing one set_defaults name with int / str / None / list / dict / nested-dict values (also on the child), set_defaults before and after the add_argument of the same dest or for a dest declared by the other parent, options that are proper prefixes of dataclass options)), a dataclass FOREST registered with "
         "add_arguments next to it (int/str/float/bool/List/Tuple/Optional leaves, required leaves, nested and Optional "
         "nested classes, one subgroups field, positional fields; names disjoint from the user's), an API "
         "(parse_args | parse_known_args) and an ARGV interleaving valid and invalid tokens of both worlds (unknown "
@@ -872,8 +872,10 @@ def tags(case, obs):
             elif d["k"] == "group":
                 t.append("parent-group")
             elif d["k"] == "set_defaults":
-                for k in d["kv"]:
+                for k, v in d["kv"].items():
                     t.append("parent-set_defaults:" + ("after-add" if k in seen else "before-or-foreign"))
+                    if k in ("env", "opts"):
+                        t.append("parent-shared-default:" + v.get("t", "?"))
             elif d["k"] == "arg":
                 seen.add(decl_dest(d))
         del kinds
@@ -1429,10 +1431,26 @@ def gen_case(rng, op, kind="normal"):
                 ["--json"], ["--yaml"], ["--px"], ["-Y", "--py"], ["--pa"], ["--pb"], ["--pc"], ["--pd"]]
         rng.shuffle(pool)
         parents = []
-        for pi in range(rng.choice([1, 1, 2, 2])):
+        for pi in range(rng.choice([1, 1, 2, 2, 2, 3])):
             prev = [decl_dest(d) for ps in parents for d in ps["decls"] if d["k"] == "arg"
                     and d["kw"].get("action", "store") == "store" and d["kw"].get("nargs") is None]
             parents.append({"sp": rng.random() < 0.5, "decls": gen_parent_decls(rng, pool, pi, prev)})
+        if rng.random() < 0.7:
+            # the SAME parser-level default on several parents (and maybe on the child): argparse's plain
+            # `_defaults.update` lets the later one win, whatever the kinds of the values (int / str / None / list /
+            # dict / nested dict — nothing is merged)
+            shared = rng.choice(["env", "opts"])
+            kinds = [I(3), S("inherit"), {"t": "none"}, {"t": "list", "v": [I(1), I(2)]},
+                     {"t": "dict", "v": {"A": S("1")}}, {"t": "dict", "v": {"B": S("2")}},
+                     {"t": "dict", "v": {"A": {"t": "dict", "v": {"x": I(1)}}}},
+                     {"t": "dict", "v": {"A": {"t": "dict", "v": {"y": I(2)}}, "C": {"t": "list", "v": [I(9)]}}}]
+            for ps in parents:
+                if rng.random() < 0.85:
+                    ps["decls"].insert(rng.randint(0, len(ps["decls"])), {"k": "set_defaults", "kv": {shared: rng.choice(kinds)}})
+                    ps["decls"] = fix_order(ps["decls"])
+            if rng.random() < 0.3:
+                c["decls"].insert(rng.randint(0, len(c["decls"])), {"k": "set_defaults", "kv": {shared: rng.choice(kinds)}})
+                c["decls"] = fix_order(c["decls"])
         c["parents"] = parents
     if kind == "collision":
         c["disjoint"] = False
